@@ -511,8 +511,8 @@ def r9_stateless_parameters_not_narrowed(ctx, rid="C12.R9"):
     text = "; ".join(L)
     ok = _re.fullmatch(r"\$0\._parameters = \$1\.copy\(\); for \(\$0\._parameters\.items\(\), \((%\d+), (%\d+)\)\); if isinstance\(\2, list\); \$0\._parameters\[\1\] = np\.(array|asarray)\(\2(, dtype=(np\.float64|float|np\.double|'float64'))?\)", text) is not None
     ctx.form(rid, f, f.node, text, {text} if ok else set(), ["$0._parameters", "np.array("], "lists -> np.array(list) (float64)",
-             "the saved parameters are no longer turned into double-precision arrays as they are: the reloaded model does not carry the saved values",
-             forbidden=[r"float32", r"float16", r"\bhalf\b", r"\bsingle\b", r"dtype=(np\.)?int", r"\.astype\(", r"\.round\(", r"np\.(round|around)\(", r"torch\."], construct="lists to arrays")
+             "the saved parameters are no longer turned into double-precision arrays as they are (precision narrowed, or shape changed - `squeeze` turns a saved 1x1 matrix into a scalar): the reloaded model does not carry the saved values",
+             forbidden=[r"float32", r"float16", r"\bhalf\b", r"\bsingle\b", r"dtype=(np\.)?int", r"\.astype\(", r"\.round\(", r"np\.(round|around)\(", r"torch\.", r"squeeze\(", r"\.ravel\(", r"\.flatten\(", r"\.reshape\(", r"atleast_\dd\("], construct="lists to arrays")
 
 
 def r10_load_hands_over_every_parameter(ctx):
